@@ -9,14 +9,16 @@
    not checkpoint). *)
 From AV Require Import Base.
 
-Inductive event (A : Type) := Yield (v : A) | Ck | CkIf | Sh | Call.   (* Call: one invocation of the awaited callback (reduce only) *)
+(* Call: one invocation of the awaited callback; Nx: one next() / __anext__() on the iterable (both reduce only) *)
+Inductive event (A : Type) := Yield (v : A) | Ck | CkIf | Sh | Call | Nx.
 Arguments Yield {A} v.
 Arguments Call {A}.
+Arguments Nx {A}.
 Arguments Ck {A}.
 Arguments CkIf {A}.
 Arguments Sh {A}.
 
-Inductive err := ValueError | TypeError.
+Inductive err := ValueError | TypeError | Cancelled.   (* Cancelled: the scope's cancellation exception *)
 Inductive kind := KSync | KAsync.
 
 Definition trace (A : Type) := (list (event A) * option err)%type.
@@ -41,6 +43,11 @@ Fixpoint yields {A} (t : list (event A)) : list A :=
 Definition is_ck {A} (e : event A) : bool := match e with Ck | CkIf | Sh => true | _ => false end.
 Definition is_call {A} (e : event A) : bool := match e with Call => true | _ => false end.
 Definition has_call {A} (t : list (event A)) : bool := existsb is_call t.
+Definition is_next {A} (e : event A) : bool := match e with Nx => true | _ => false end.
+Definition has_next {A} (t : list (event A)) : bool := existsb is_next t.
+(* events that really suspend: checkpoint() and cancel_shielded_checkpoint() (checkpoint_if_cancelled does not) *)
+Definition is_yield {A} (e : event A) : bool := match e with Ck | Sh => true | _ => false end.
+Definition has_yield {A} (t : list (event A)) : bool := existsb is_yield t.
 Definition has_ck {A} (t : list (event A)) : bool := existsb is_ck t.
 Definition outcome {A} (t : trace A) : list A * option err := (yields (fst t), snd t).
 Definition all_sync (ss : list src) : bool := forallb (fun s => match fst s with KSync => true | KAsync => false end) ss.
@@ -424,22 +431,41 @@ Definition zip_longest_run (fill : Z) (ss : list src) : option (list (event (lis
 Definition zip_longest_model (fill : Z) (ss : list src) : trace (list Z) :=
   match zip_longest_run fill ss with Some t => (t, None) | None => ([], None) end.
 
-(* functools.reduce (344-400): no adaptor; every `await function(value, element)` is a Call event (by AnyIO's
-   convention the awaited callback is itself obliged to checkpoint); reduce's own checkpoint is
-   `if not function_called`; the returned value is the final Yield *)
-Fixpoint reduce_loop (f : Z -> Z -> Z) (value : Z) (l : list Z) (called : bool) : list (event Z) * Z * bool :=
+(* functools.reduce (after the F22 fix): `await checkpoint_if_cancelled()` before anything is touched; then the
+   iterable is consumed (Nx per next()/__anext__(), the exhausting one included; no adaptor, so no per-element
+   checkpoints) with one Call per `await function(value, element)`; every error-free call ends with
+   `await cancel_shielded_checkpoint()`; the returned value is the final Yield.  cancelled = the caller's scope is
+   already cancelled at entry: the initial check raises and nothing else happens. *)
+Fixpoint reduce_loop (f : Z -> Z -> Z) (value : Z) (l : list Z) : list (event Z) * Z :=
   match l with
-  | [] => ([], value, called)
-  | x :: r => let '(ev, v, c) := reduce_loop f (f value x) r true in (Call :: ev, v, c)
+  | [] => ([Nx], value)
+  | x :: r => let '(ev, v) := reduce_loop f (f value x) r in (Nx :: Call :: ev, v)
   end.
 
-Definition reduce_model (f : Z -> Z -> Z) (initial : option Z) (s : src) : trace Z :=
+Definition reduce_model (f : Z -> Z -> Z) (initial : option Z) (s : src) (cancelled : bool) : trace Z :=
+  if cancelled then ([CkIf], Some Cancelled) else
+  match initial with
+  | None => match snd s with
+            | [] => ([CkIf; Nx], Some TypeError)
+            | x :: r => let '(ev, v) := reduce_loop f x r in (CkIf :: Nx :: ev ++ [Sh; Yield v], None)
+            end
+  | Some i => let '(ev, v) := reduce_loop f i (snd s) in (CkIf :: ev ++ [Sh; Yield v], None)
+  end.
+
+(* the shape before the fix (kept for the refutation witness): the only checkpoint was `if not function_called` *)
+Fixpoint reduce_loop_pre_F22 (f : Z -> Z -> Z) (value : Z) (l : list Z) (called : bool) : list (event Z) * Z * bool :=
+  match l with
+  | [] => ([], value, called)
+  | x :: r => let '(ev, v, c) := reduce_loop_pre_F22 f (f value x) r true in (Call :: ev, v, c)
+  end.
+
+Definition reduce_model_pre_F22 (f : Z -> Z -> Z) (initial : option Z) (s : src) : trace Z :=
   match (match initial with
          | None => match snd s with [] => None | x :: r => Some (x, r) end
          | Some i => Some (i, snd s)
          end) with
   | None => ([], Some TypeError)
-  | Some (v0, rest) => let '(ev, v, called) := reduce_loop f v0 rest false in
+  | Some (v0, rest) => let '(ev, v, called) := reduce_loop_pre_F22 f v0 rest false in
                        (ev ++ tail called ++ [Yield v], None)
   end.
 
@@ -934,7 +960,7 @@ Definition fnN (c : Z) : list Z -> Z :=
 
 (* ------------------------------------------------------------------------------------------------ *)
 (* Codec.  Input: flat integers; sources are [kind; len; elements…], options [0] / [1; v].
-   Output: events Yield v -> 0 :: len :: enc v, Ck -> 1, CkIf -> 2, Sh -> 3, Call -> 6; end marker 5 (ok), 4;1 (ValueError),
+   Output: events Yield v -> 0 :: len :: enc v, Ck -> 1, CkIf -> 2, Sh -> 3, Call -> 6, Nx -> 7; end marker 5 (ok), 4;1 (ValueError),
    4;2 (TypeError). *)
 Definition rd_list (l : list Z) : list Z * list Z :=
   match l with
@@ -980,13 +1006,13 @@ Definition rd_store (l : list Z) : ikinds * istore * list Z :=
 Definition rd_nats (l : list Z) : list nat * list Z := let (xs, r) := rd_list l in (map zn xs, r).
 
 Definition enc_end (e : option err) : list Z :=
-  match e with None => [5] | Some ValueError => [4; 1] | Some TypeError => [4; 2] end%Z.
+  match e with None => [5] | Some ValueError => [4; 1] | Some TypeError => [4; 2] | Some Cancelled => [4; 3] end%Z.
 
 Definition enc_yield {A} (enc : A -> list Z) (v : A) : list Z :=
   0%Z :: nz (length (enc v)) :: enc v.
 
 Definition enc_event {A} (enc : A -> list Z) (e : event A) : list Z :=
-  match e with Yield v => enc_yield enc v | Ck => [1%Z] | CkIf => [2%Z] | Sh => [3%Z] | Call => [6%Z] end.
+  match e with Yield v => enc_yield enc v | Ck => [1%Z] | CkIf => [2%Z] | Sh => [3%Z] | Call => [6%Z] | Nx => [7%Z] end.
 
 Definition enc_trace {A} (enc : A -> list Z) (t : trace A) : list Z :=
   flat_map (enc_event enc) (fst t) ++ enc_end (snd t).
@@ -1028,7 +1054,9 @@ Definition run_model_case (c : list Z) : list Z :=
   | 19 :: n :: r => let (f, r1) := rd_opt r in let (ss, _) := rd_srcs (zn n) r1 in
                     enc_trace eL (zip_longest_model (dflt none_code f) ss)
   | 21 :: fc :: r => let (i, r1) := rd_opt r in let (s, _) := rd_src r1 in
-                     enc_trace eZ (reduce_model (fn2 fc) i s)
+                     enc_trace eZ (reduce_model (fn2 fc) i s false)
+  | 28 :: fc :: r => let (i, r1) := rd_opt r in let (s, _) := rd_src r1 in
+                     enc_trace eZ (reduce_model (fn2 fc) i s true)
   | 22 :: n :: _ => match tee_count n with inr _ => [4; 1] | inl k => [5; nz k] end
   | 23 :: r => let (f, r1) := rd_opt r in let '(kd, st, r2) := rd_store r1 in let (ps, _) := rd_nats r2 in
                enc_trace eL (zip_longest_alias_model (dflt none_code f) kd st ps)
